@@ -64,6 +64,8 @@ def step (m : MA) (i : XI) : Option MA :=
     if isGpRt rt then (m.getGp id).map fun v => storeBytes m o (gpBytes rt) v
     else if isVRt rt then (m.getV id).map fun t => storeVec m o (vBytes rt) t
     else none
+  | .strb, [.reg rt id, .mem 31 o _] => if isGpRt rt then (m.getGp id).map fun v => storeBytes m o 1 v else none
+  | .strh, [.reg rt id, .mem 31 o _] => if isGpRt rt then (m.getGp id).map fun v => storeBytes m o 2 v else none
   | .ldr, [.reg rt id, .mem b o _] =>
     if b = 31 then
       (if isGpRt rt then (loadBytes m o (gpBytes rt)).map fun v => m.setGp id v
